@@ -126,8 +126,27 @@ GenFor(env, at, depth) ==
       b == Body(Append(env, lv), at + 3 + Len(e.toks) + 1 + 3, depth + 1, Pick(0..2))
   IN R(head \o e.toks \o <<Tk(" {\n")>> \o Show(lv) \o b.toks \o <<Tk("}\n")>>, env, lv.val \o "\n" \o b.out)
 
+\* two arms: the first one binds a name (preferably one that is also bound outside), the second one does not bind it and
+\* uses the outer binding of that name: a binding made by one arm is not in scope in another arm
+GenMatch2(env, at, depth) ==
+  LET outer == InScope(env)
+      n2 == IF outer # {} /\ Chance(3, 4) THEN Pick(outer) ELSE Pick(Names)
+      n1 == Pick(Names \ {n2})
+      e == Expr("(int, string)", env, at + 1)
+      k == at + 1 + Len(e.toks) + 1
+      p2 == Bind(n2, k + 1, "string", E(<<>>, e.str, 0, e.str), FALSE, "match")
+      p1 == Bind(n1, k + 7, "int", E(<<>>, ToString(e.num), e.num, ""), FALSE, "match")
+      shown == n2 \in outer
+      ob == Lookup(env, n2)
+      b == Body(Append(env, p1), k + 11 + (IF shown THEN 3 ELSE 0), depth + 1, Pick(0..2))
+  IN R(<<Tk("match ")>> \o e.toks \o <<Tk(" {\n(0, "), Dc(n2, "string", "match"), Tk(") -> {\n")>> \o Show(p2)
+       \o <<Tk("}\n("), Dc(n1, "int", "match"), Tk(", _) -> {\n")>> \o Show(p1) \o (IF shown THEN Show(ob) ELSE <<>>) \o b.toks
+       \o <<Tk("}\n}\n")>>,
+       env, p1.val \o "\n" \o (IF shown THEN ob.val \o "\n" ELSE "") \o b.out)
+
 GenMatch(env, at, depth) ==
-  IF Chance(1, 2)
+  IF Chance(1, 3) THEN GenMatch2(env, at, depth)
+  ELSE IF Chance(1, 2)
   THEN \* binding pattern: the whole scrutinee
        LET ty == Pick(ValTypes)  name == Pick(Names)
            e == Expr(ty, env, at + 1)
